@@ -72,7 +72,10 @@ def coords(rng, natom, cls, lo, hi):
 def random_bonds(rng, natom, nbond, types):
     if natom < 2 or nbond == 0:
         return np.zeros((0, 3), dtype=int)
-    pairs = set()
+    # always include bonds among the highest-numbered atoms (widest serial numbers)
+    pairs = {(natom - 2, natom - 1)}
+    if nbond >= 2 and natom >= 3:
+        pairs.add((0, natom - 1))
     tries = 0
     while len(pairs) < nbond and tries < 20 * nbond:
         i, j = (int(x) for x in rng.integers(natom, size=2))
@@ -97,6 +100,7 @@ def st_common(fmt, maxatom, big):
         "coord_cls": st.sampled_from(["small", "small", "negative", "wide", "boundary"]),
         "title": st_title(),
         "elements": st.sampled_from(["light", "all", "two_letter"]),
+        "layout": st.sampled_from(["C", "C", "C", "F", "strided"]),
     }
 
 
@@ -159,6 +163,7 @@ def st_object(fmt, big=False):
                 "nelec": st.sampled_from(["absent", "int", "float"]),
                 "spinpol": st.sampled_from(["absent", "int", "float"]),
                 "sparsity": st.sampled_from([0.0, 0.0, 0.5]),
+                "layout": st.sampled_from(["C", "C", "C", "F", "strided"]),
             }
         )
     if fmt == "json_qcschema":
@@ -192,7 +197,51 @@ def build(spec):
     res = dict(zip(keys, out))
     res.setdefault("truth", None)
     res["labels"] = list(res["labels"]) + [f"fmt:{spec['fmt']}"]
+    layout = spec.get("layout", "C")
+    if layout != "C":
+        relayout(res["data"], layout)
+        res["labels"].append(f"layout:{layout}")
     return res
+
+
+def _relayout_array(arr, layout):
+    """Same values, different memory layout (Fortran order or a strided view)."""
+    if not isinstance(arr, np.ndarray) or arr.ndim == 0 or arr.size == 0:
+        return arr
+    if layout == "F":
+        return np.asfortranarray(arr) if arr.ndim >= 2 else arr
+    # strided: every second element of a larger buffer along each axis
+    big = np.zeros(tuple(2 * n for n in arr.shape), dtype=arr.dtype)
+    view = big[tuple(slice(None, None, 2) for _ in arr.shape)]
+    view[...] = arr
+    return view
+
+
+def relayout(data, layout):
+    """Replace every array reachable from an IOData object by an equal array in another layout."""
+    import attrs
+
+    for field in attrs.fields(type(data)):
+        name = field.name
+        val = object.__getattribute__(data, name)
+        if isinstance(val, np.ndarray):
+            object.__setattr__(data, name, _relayout_array(val, layout))
+        elif isinstance(val, dict):
+            for key, item in list(val.items()):
+                if isinstance(item, np.ndarray):
+                    val[key] = _relayout_array(item, layout)
+    if data.cube is not None:
+        for name in ("origin", "axes", "data"):
+            object.__setattr__(data.cube, name, _relayout_array(getattr(data.cube, name), layout))
+    if data.mo is not None:
+        for name in ("occs", "coeffs", "energies", "occs_aminusb"):
+            val = getattr(data.mo, name)
+            if isinstance(val, np.ndarray):
+                object.__setattr__(data.mo, name, _relayout_array(val, layout))
+    if data.obasis is not None:
+        for shell in data.obasis.shells:
+            for name in ("exponents", "coeffs"):
+                object.__setattr__(shell, name, _relayout_array(getattr(shell, name), layout))
 
 
 def _base(spec, lo, hi):
@@ -591,6 +640,7 @@ def st_wavefunction(draw, fmt):
     return {
         "fmt": fmt, "basis": basis, "mo": mo, "opt": opt,
         "atnum_seed": draw(st.integers(0, 2**16)),
+        "layout": draw(st.sampled_from(["C", "C", "C", "F", "strided"])),
     }
 
 
